@@ -612,6 +612,18 @@ def crossed_handoffs(rep: Report, ctx: Ctx, rule: str,
                 j = ps.index(nm)
                 if j < len(names) and names[j] == ps[i]:
                     bad.append((fi, site.node, cal, ps[i], ps[j]))
+        # isinstance(object, Class): the class (a name bound to a class of
+        # the package, or a tuple of such) is the SECOND argument
+        for c in ast.walk(fi.node):
+            if isinstance(c, ast.Call) and isinstance(c.func, ast.Name) \
+                    and c.func.id == "isinstance" and len(c.args) == 2:
+                n_sites += 1
+                first = c.args[0]
+                if isinstance(first, ast.Name) and first.id in \
+                        ctx.index.classes and not (isinstance(
+                            c.args[1], ast.Name) and c.args[1].id in
+                            ctx.index.classes):
+                    bad.append((fi, c, fi, "object", "class"))
     rep.analysed[f"{rule}_call_sites"] = n_sites
     if n_sites == 0:
         raise AnalysisError(f"{rule}: no resolved hand-off found in "
